@@ -10,18 +10,21 @@ def run(tier, seed):
     rep, r = C01.run(tier, seed, prop='C05', units=('Gillespie_SIR', 'Gillespie_SIS'), fast=True, sis=True)
     # the discrete-time simulators: row 0 = the request for every spelling of the initial condition, random.sample site, EoNError clause
     from . import C12
-    rep.add_unit_results(util.run_jobs(util.jobs_for(C12.reg, tier=tier, quals={'discrete_SIR', 'basic_discrete_SIS'})))
+    # fast_nonMarkov_SIS: handler, queue-rule lemma (rows are part of the global invariant GI_NM) and the driver (rows, row 0, argument errors)
+    from . import C13
+    rep.add_unit_results(util.run_jobs(util.jobs_for(C12.reg, tier=tier, quals={'discrete_SIR', 'basic_discrete_SIS'})
+                                       + util.jobs_for(C13.reg_nm, tier=tier, quals={'_process_trans_SIS_nonMarkov_', 'event_step_nmSIS', 'fast_nonMarkov_SIS'})))
     for ob in binding.obligations(only=('simulation',)):
         rep.add(ob)
     rep.explanation = ('Row 0 = (N-k-r0, k, r0) with k = len(initial_infecteds) | 1 (a node) | int(round(N*rho)) (site obligation on '
                        'random.sample: that many distinct nodes of G) and "initially recovered stay recovered" are part of the proved '
-                       'invariants/postconditions of Gillespie_SIR, Gillespie_SIS, fast_nonMarkov_SIR, fast_SIR, fast_SIS, discrete_SIR, basic_discrete_SIS (plain arrays); raising EoNError exactly '
+                       'invariants/postconditions of Gillespie_SIR, Gillespie_SIS, fast_nonMarkov_SIR, fast_SIR, fast_SIS, fast_nonMarkov_SIS, discrete_SIR, basic_discrete_SIS (plain arrays); raising EoNError exactly '
                        'when both rho and initial_infecteds are given is a must_raise clause; wrapper forwarding by the delegation-binding analysis.')
     from ..replay import sim_native
     rep.bounded_is_supplementary = True
     rep.add(util.native_ob('native:initial-condition:all-simulators-and-spellings', 'EoN/simulation.py:(all SIR/SIS simulators and wrappers)', sim_native.c05_native,
                            'one 7-node graph; list/tuple/set/range/array/single node; with and without initial_recovereds; rho in {0,.3,.5,1}; rho+initial_infecteds incl. falsy values; tmin != 0'))
     r = util.native_replayer
-    rep.not_covered += ['fast_nonMarkov_SIS prefix (driver under contract in C13; here binding + bounded native only); the per-node statuses at tmin of the discrete-time simulators (full-data path)',
+    rep.not_covered += ['the per-node statuses at tmin of the discrete-time simulators (full-data path)',
                         'get_statuses(time=tmin) (see C10)']
     return rep, r
